@@ -282,13 +282,12 @@ def evaluate__translate(self: XPathFunction, context: ta.ContextType = None) -> 
         message = "the 3rd argument of fn:translate() cannot be the empty sequence"
         raise self.error('XPTY0004', message)
 
-    if len(map_string) == len(trans_string):
-        return arg.translate(str.maketrans(map_string, trans_string))
-    elif len(map_string) > len(trans_string):
-        k = len(trans_string)
-        return arg.translate(str.maketrans(map_string[:k], trans_string, map_string[k:]))
-    else:
-        return arg.translate(str.maketrans(map_string, trans_string[:len(map_string)]))
+    # The first occurrence of a character in $mapString determines its replacement;
+    # characters without a counterpart in $transString are removed.
+    table: dict[int, str | None] = {}
+    for k, char in enumerate(map_string):
+        table.setdefault(ord(char), trans_string[k] if k < len(trans_string) else None)
+    return arg.translate(table)
 
 
 @method(function('substring', nargs=(2, 3),
